@@ -30,18 +30,20 @@ import (
 var dispDenoms = []string{"ceth", "cusdc", "rowan"}
 
 type dispEnv struct {
-	app        *sifapp.SifchainApp
-	ctx        sdk.Context
-	srv        disptypes.MsgServer
-	mod        sdk.AccAddress
-	users      []sdk.AccAddress // ordinary accounts
-	rcpts      []string         // recipient pool: users + blocked addresses
-	names      []string         // distribution names created so far
-	created    map[string]sdk.Coins
-	paid       map[string]sdk.Coins
-	height     int64
-	out        *Out
-	pendingChk string // emitted by after(): the supply check of the last message
+	app           *sifapp.SifchainApp
+	ctx           sdk.Context
+	srv           disptypes.MsgServer
+	mod           sdk.AccAddress
+	users         []sdk.AccAddress // ordinary accounts
+	rcpts         []string         // recipient pool: users + blocked addresses
+	names         []string         // distribution names created so far
+	created       map[string]sdk.Coins
+	paid          map[string]sdk.Coins
+	height        int64
+	out           *Out
+	pendingChk    string     // emitted by after(): the supply check of the last message
+	pendingCreate string     // emitted by after(): the escrow check of the last create message
+	createCtx     *createObs // set before delivering a create message
 }
 
 func coinsStr(c sdk.Coins) string {
@@ -130,6 +132,10 @@ func (e *dispEnv) balances(accts []string) map[string]sdk.Coins {
 
 // emit the observation and invariant lines that follow every operation
 func (e *dispEnv) after() {
+	if e.pendingCreate != "" {
+		e.out.Emit(e.pendingCreate, "true", "chk.create", false)
+		e.pendingCreate = ""
+	}
 	if e.pendingChk != "" {
 		e.out.Emit(e.pendingChk, "true", "chk.txsupply", false)
 		e.pendingChk = ""
@@ -158,6 +164,11 @@ func (e *dispEnv) after() {
 }
 
 // deliver runs one message the way baseapp does: ValidateBasic, handler on a cache, write on success
+type createObs struct {
+	distributor string
+	outs        []banktypes.Output
+}
+
 func (e *dispEnv) supplies() string {
 	var parts []string
 	for _, d := range dispDenoms {
@@ -172,6 +183,33 @@ func (e *dispEnv) deliver(validate func() error, handle func(ctx sdk.Context) er
 	defer func() {
 		e.pendingChk = fmt.Sprintf("chk c20.txsupply tag=disp.msg.supply-unchanged %s %s", before, e.supplies())
 	}()
+	// a create message moves exactly the sum of ITS outputs from the distributor to the module account
+	if co := e.createCtx; co != nil {
+		e.createCtx = nil
+		if daddr, err := sdk.AccAddressFromBech32(co.distributor); err == nil {
+			distBefore := e.app.BankKeeper.GetAllBalances(e.ctx, daddr)
+			modBefore := e.app.BankKeeper.GetAllBalances(e.ctx, e.mod)
+			defer func() {
+				dec, neg1 := distBefore.SafeSub(e.app.BankKeeper.GetAllBalances(e.ctx, daddr))
+				inc, neg2 := e.app.BankKeeper.GetAllBalances(e.ctx, e.mod).SafeSub(modBefore)
+				ds, ms := coinsStr(dec), coinsStr(inc)
+				if neg1 {
+					ds = "NEGATIVE"
+				}
+				if neg2 {
+					ms = "NEGATIVE"
+				}
+				var os []string
+				for _, o := range co.outs {
+					os = append(os, coinsStr(o.Coins))
+				}
+				if len(os) == 0 {
+					os = []string{"-"}
+				}
+				e.pendingCreate = fmt.Sprintf("chk c11.create tag=disp.create.moves-exactly-outputs %s %s outs=%s dist=%s mod=%s", strings.Join(dispDenoms, ","), b2s(res == "ok"), strings.Join(os, ";"), ds, ms)
+			}()
+		}
+	}
 	if err := validate(); err != nil {
 		return "err"
 	}
@@ -344,6 +382,7 @@ func (e *dispEnv) opCreate(rng *Rng) {
 		toks = append(toks, a, coinsStr(c))
 	}
 	msg := disptypes.MsgCreateDistribution{Distributor: distributor, AuthorizedRunner: runner, DistributionType: disptypes.DistributionType(t), Output: outs}
+	e.createCtx = &createObs{msg.Distributor, msg.Output}
 	res := e.deliver(msg.ValidateBasic, func(ctx sdk.Context) error {
 		_, err := e.srv.CreateDistribution(sdk.WrapSDKContext(ctx), &msg)
 		return err
@@ -505,6 +544,7 @@ func (e *dispEnv) directedMerge(rng *Rng) {
 	D, R1, R2, U, V := e.users[0].String(), e.users[1].String(), e.users[2].String(), e.users[3].String(), e.rcpts[len(e.rcpts)-1]
 	mk := func(runner string, outs []banktypes.Output) {
 		msg := disptypes.MsgCreateDistribution{Distributor: D, AuthorizedRunner: runner, DistributionType: disptypes.DistributionType_DISTRIBUTION_TYPE_AIRDROP, Output: outs}
+		e.createCtx = &createObs{msg.Distributor, msg.Output}
 		res := e.deliver(msg.ValidateBasic, func(ctx sdk.Context) error {
 			_, err := e.srv.CreateDistribution(sdk.WrapSDKContext(ctx), &msg)
 			return err
@@ -558,6 +598,7 @@ func (e *dispEnv) directedTwoRunners(rng *Rng) {
 			toks = append(toks, rs[i], coinsStr(c))
 		}
 		msg := disptypes.MsgCreateDistribution{Distributor: D, AuthorizedRunner: runner, DistributionType: disptypes.DistributionType(t), Output: outs}
+		e.createCtx = &createObs{msg.Distributor, msg.Output}
 		res := e.deliver(msg.ValidateBasic, func(ctx sdk.Context) error {
 			_, err := e.srv.CreateDistribution(sdk.WrapSDKContext(ctx), &msg)
 			return err
@@ -635,6 +676,7 @@ func (e *dispEnv) directedSpelling(rng *Rng) {
 			toks = append(toks, a, coinsStr(c))
 		}
 		msg := disptypes.MsgCreateDistribution{Distributor: D, AuthorizedRunner: runner, DistributionType: disptypes.DistributionType(t), Output: outs}
+		e.createCtx = &createObs{msg.Distributor, msg.Output}
 		res := e.deliver(msg.ValidateBasic, func(ctx sdk.Context) error {
 			_, err := e.srv.CreateDistribution(sdk.WrapSDKContext(ctx), &msg)
 			return err
